@@ -108,6 +108,16 @@ fn main() {
         manifest.insert("k4-scaled".into(), json!({"bloom": "scaled", "info": standard::<4>(&d, Bloom::Scaled).await}));
         let d = out.join("k1000-tree");
         manifest.insert("k1000-tree".into(), json!({"bloom": "bits512", "info": tree(&d).await}));
+        // one small directory per key length class of the filter's hash function (short inputs,
+        // 9..16 bytes, block loop with and without a tail, exact multiples of the block size)
+        macro_rules! hashlen {
+            ($($n:literal),*) => {$(
+                let name = format!("k{}-hash", $n);
+                let d = out.join(&name);
+                manifest.insert(name, json!({"bloom": "bits256", "info": standard::<$n>(&d, Bloom::Bits(256)).await}));
+            )*};
+        }
+        hashlen!(1, 2, 3, 5, 7, 9, 12, 15, 16, 17, 24, 31, 32, 48, 63, 64, 65, 100, 128, 255);
     });
     let m = json!({"generated_by": "corpus/gen built against qoollo/pearl", "sha": sha, "dirs": manifest});
     std::fs::write(out.join("MANIFEST.json"), serde_json::to_string_pretty(&m).unwrap()).unwrap();
